@@ -208,3 +208,56 @@ func TestConcC05(t *testing.T) { runConc(t, "C05", false) }
 func TestConcC06(t *testing.T) { runConc(t, "C06", false) }
 func TestConcC07(t *testing.T) { runConc(t, "C07", false) }
 func TestConcC09(t *testing.T) { runConc(t, "C09", false) }
+
+func runSched(t *testing.T, prop string, kinds []string) {
+	st := hx.For(prop)
+	one := func(p *SchedProg) string {
+		v, steps := RunSched(p)
+		if v != "" {
+			vp, msg := split(v)
+			if strings.Contains(","+vp+",", ","+prop+",") {
+				st.Failed()
+				p.Failure, p.Property = msg, prop
+				hx.WriteReplay(prop, p)
+				return msg
+			}
+			st.Label("aborted-by-other-property-"+vp, 1)
+		}
+		st.Case(steps, map[string]int{"scheduled-program-" + p.Kind: 1, "scheduled-steps": steps}, steps >= 6, p)
+		return ""
+	}
+	if path := hx.ReplayIn(); path != "" {
+		var p SchedProg
+		if err := hx.Load(path, &p); err != nil {
+			t.Fatal(err)
+		}
+		p.Failure = ""
+		for i := 0; i < 3; i++ {
+			if f := one(&p); f != "" {
+				t.Fatalf("replay %s: %s", path, f)
+			}
+		}
+		return
+	}
+	rapid.Check(t, func(rt *rapid.T) {
+		p := &SchedProg{Kind: rapid.SampledFrom(kinds).Draw(rt, "kind"), Max: rapid.IntRange(2, 3).Draw(rt, "max"), NPick: rapid.IntRange(2, 3).Draw(rt, "npick"),
+			UdCalls: rapid.IntRange(1, 2).Draw(rt, "udcalls"), Extra: rapid.IntRange(0, 59).Draw(rt, "extra"),
+			Mode: rapid.SampledFrom([]string{"pct", "pct", "pct", "random"}).Draw(rt, "mode")}
+		if p.Mode == "pct" {
+			p.Prio = rapid.SliceOfN(rapid.Uint8Range(0, 7), 5, 5).Draw(rt, "priorities")
+			p.Changes = rapid.SliceOfN(rapid.Uint8Range(0, 40), 0, 3).Draw(rt, "changePoints")
+		} else {
+			p.Choices = rapid.SliceOfN(rapid.Uint8Range(0, 5), 0, 80).Draw(rt, "schedule")
+		}
+		if f := one(p); f != "" {
+			rt.Fatalf("%s", f)
+		}
+	})
+}
+
+func TestSchedC03(t *testing.T) { runSched(t, "C03", []string{"sched-growth"}) }
+func TestSchedC07(t *testing.T) { runSched(t, "C07", []string{"sched-refresh"}) }
+func TestSchedC06(t *testing.T) {
+	runSched(t, "C06", []string{"sched-lockorder", "sched-lockorder", "sched-growth", "sched-refresh"})
+}
+func TestSchedC12(t *testing.T) { runSched(t, "C12", []string{"sched-stream"}) }
